@@ -79,8 +79,13 @@ def layer_task(t):
     name = t["layer"]
     T = {}
 
+    mixed = t.get("mixed")
+    cycle = [np.dtype("float32"), np.dtype("float64")] if mixed == 1 else [np.dtype("float64"), np.dtype("float32")]
+
     def mk(nm, *shape):
-        T[nm] = mg.tensor(rs.standard_normal(shape).astype(dt))
+        # mixed precision: the parameters of one layer get different float dtypes (every .grad must still have ITS tensor's dtype)
+        d = cycle[len(T) % 2] if mixed else dt
+        T[nm] = mg.tensor(rs.standard_normal(shape).astype(d))
         return T[nm]
 
     try:
